@@ -13,6 +13,7 @@ import AsmjitVerif.Lemmas.SectionsRun
 import AsmjitVerif.Lemmas.SectionsSize
 import AsmjitVerif.Lemmas.SectionsCopy
 import AsmjitVerif.Lemmas.SectionsBuild
+import AsmjitVerif.Lemmas.SectionsJit
 namespace AsmjitVerif.Sections
 
 /-- every reachable table is strictly sorted by (order, id), its ids are below the section count, `.text` is first and
@@ -201,6 +202,43 @@ theorem installed_image_exact_list (l : List Section) (dst : List Byte)
   subst hdd
   exact ⟨d', h2, hd', hlen, hget⟩
 
+/-- what the copy loop of `JitRuntime::_add` installs (sections walked in ID order, `code->_sections`) into a span that
+    holds every section is exactly what `copy_flattened_data(kPadSectionBuffer)` (sections walked BY ORDER) produces for
+    the same state, and that is the specified image byte for byte; no write leaves the span (`jitCopy ≠ none`) -/
+theorem installed_image_exact (h : Holder) (hinv : InvS h.secs) (hno : NoOverlap h.secs) (dst : List Byte)
+    (hfit : ∀ s ∈ h.secs, s.offset + s.realSize ≤ dst.length) :
+    ∃ d, jitCopy (byId h.secs) dst = some d ∧
+      copyFlattened h dst { padSection := true, padTarget := false } = .ok d ∧ d.length = dst.length ∧
+      ∀ k, k < dst.length → d[k]? = some (imageByte h.secs dst.length { padSection := true, padTarget := false } (fun i => dst.getD i 0) k) := by
+  obtain ⟨d, h1, h2⟩ := jitCopy_byId_eq h.secs hinv dst hfit hno
+  obtain ⟨d', _, h3, hlen, hget⟩ := installed_image_exact_list h.secs dst hfit hno
+  have : d' = d := by rw [h2] at h3; cases h3; rfl
+  subst this
+  exact ⟨d', h1, h2, hlen, hget⟩
+
+/-- the `JitRuntime::_add` sequence on any built program: flatten, relocate to any base, copy into a zeroed span of
+    any size `n ≥` the estimate: the installed bytes are the flattened image of the RELOCATED state -/
+theorem installed_image_after_relocate (ops : List Op) (hb : BuildOK init ops) (hl : ops.length < 2 ^ 60)
+    (hok : (flatten (run ops)).2 = .ok ()) (base n : Nat) (hn : codeSize (flatten (run ops)).1 ≤ n) :
+    ∃ d, jitCopy (byId (relocate (flatten (run ops)).1 base).1.secs) (zeros n) = some d ∧
+      copyFlattened (relocate (flatten (run ops)).1 base).1 (zeros n) { padSection := true, padTarget := false } = .ok d := by
+  have hinv : InvS (flatten (run ops)).1.secs := by
+    have := run_inv (ops ++ [Op.flatten])
+    simpa [run, step] using this
+  have hat := flatten_addrTabOK _ (run_inv ops) (build_addrTabOK ops hb hl)
+  have hshr := relocate_shrinks (flatten (run ops)).1 hat base
+  have hinv2 := InvS.transfer (relocate_keys (flatten (run ops)).1 base) hinv
+  have hno2 := noOverlap_of_shrinks hshr (flatten_layout ops hok).2.1
+  have hbound := (flatten_code_size ops hok).2.2.2.2.2
+  obtain ⟨d, h1, h2, _, _⟩ := installed_image_exact (relocate (flatten (run ops)).1 base).1 hinv2 hno2 (zeros n) (by
+    intro s' hs'
+    obtain ⟨s, hs, hss⟩ := hshr.mem_right s' hs'
+    have := hbound s hs
+    rw [zeros_length, hss.2.2]
+    have := hss.2.1
+    omega)
+  exact ⟨d, h1, h2⟩
+
 /-! ### non-vacuity and the defects of the pinned code, in Lean -/
 
 /-- `.text` 1 byte, `.a` empty align 16, `.b` 1 byte align 16 -/
@@ -217,6 +255,19 @@ example : copyFlattened (flatten (run ex17)).1 (List.replicate 16 0xAA) { padSec
     = .error .invalidArgument := by decide
 /-- order: a later section with a smaller order value goes first; equal orders keep creation order -/
 example : (run [.newSection "x" 1 5, .newSection "y" 1 (-1), .newSection "z" 1 5]).secs.map (·.id) = [0, 2, 1, 3] := by decide
+
+/-- a far call and a near jump from `.text`: two address-table entries reserved, one used at base 0x10000 -/
+def exCall : List Op := [.emitCall 0 false 0x7fff123456789abc, .emitCall 0 true 0x1000]
+
+example : BuildOK init exCall := ⟨trivial, trivial, trivial⟩
+example : codeSize (flatten (run exCall)).1 = 32 := by decide
+example : codeSize (relocate (flatten (run exCall)).1 0x10000).1 = 24 ∧ (relocate (flatten (run exCall)).1 0x10000).2.2 = 8 := by decide
+example : (jitCopy (byId (relocate (flatten (run exCall)).1 0x10000).1.secs) (zeros 32)).isSome = true := by decide
+example : copySection (run ex17) (List.replicate 3 0xAA) 2 { padSection := true, padTarget := false } = .ok [0xCC, 0, 0] := by decide
+example : copySection (run ex17) [] 2 { padSection := true, padTarget := false } = .error .invalidArgument := by decide
+/-- repaired `JitRuntime::_add` (fixes/C10-4.patch): only an unused address-table entry → nothing to install -/
+example : (jitAdd (run [.addAddress 0x1234]) 0x10000).2.isSome = true ∧
+    (match (jitAdd (run [.addAddress 0x1234]) 0x10000).2 with | some (.error .noCodeGenerated) => true | _ => false) = true := by decide
 
 /-- defect #17 (pinned second loop of `flatten`): the empty section `.a` receives the alignment gap as virtual size, so
     `code_size()` changes from 17 to 33 and the table stops being a fixpoint -/
